@@ -430,6 +430,7 @@ def oracle(env):
     res = V.pmap(w_int, ints, timeout=60)
     V.log(f"[C15] oracle integers: {len(ints)} in {time.time() - t0:.1f}s")
     over = under = 0
+    heavy = []  # evaluating the model on a 120-digit number costs ~0.15 s inside Coq: sampled
     stride = max(1, len(ints) // 30000)
     for idx, (n, (st, r)) in enumerate(zip(ints, res)):
         if st != "ok":
@@ -449,8 +450,12 @@ def oracle(env):
             under += 1
         if 255 ** e > n:
             over += 1
-        if idx % stride == 0 or n > top:
-            extra.append((f"CCompNum {e}%nat {V.cZ(n)} {V.cstr(text)}", {"fn": "compress_num", "n": n}))
+        case = (f"CCompNum {e}%nat {V.cZ(n)} {V.cstr(text)}", {"fn": "compress_num", "n": n})
+        if n > top:
+            heavy.append(case)
+        elif idx % stride == 0:
+            extra.append(case)
+    extra += rng.sample(heavy, min(len(heavy), env.budget(150, 600)))
     env.count(len(ints), (f"int:{n}" for n in ints))
     notes["integers"] = {"exhaustive_to": top, "sampled_beyond": len(ints) - top, "max": max(ints),
                          "exponent_under_estimates(255^(e+1)<=n)": under, "exponent_over_estimates(leading zero digit)": over}
@@ -465,6 +470,7 @@ def oracle(env):
     if not (st0 == "ok" and r0.get("back") == ["str", ""]):
         env.fail({"kind": "lower", "s": ""}, f"øc on the empty string: {r0 if st0 == 'ok' else st0}", cls="compress-empty-string")
     sunder = 0
+    heavy = []
     for s, (st, r) in zip(strs, res[1:]):
         if st != "ok":
             bad_status("lower", {"s": s}, st, r)
@@ -481,8 +487,12 @@ def oracle(env):
         e = len(text) - 3
         if 255 ** (e + 1) <= H.from_base_alphabet(s, LOWER):
             sunder += 1
-        if len(s) <= 2 or len(extra) < 60000:
-            extra.append((f"CCompStr {e}%nat {V.cstr(s)} {V.cstr(text)}", {"fn": "compress_str", "s": s}))
+        case = (f"CCompStr {e}%nat {V.cstr(s)} {V.cstr(text)}", {"fn": "compress_str", "s": s})
+        if len(s) > 3:
+            heavy.append(case)
+        else:
+            extra.append(case)
+    extra += rng.sample(heavy, min(len(heavy), env.budget(100, 400)))
     env.count(len(strs) + 1, (f"lower:{s}" for s in strs))
     notes["lowercase_strings"] = {"exhaustive_len": env.budget(2, 3), "total": len(strs), "max_len": max(map(len, strs)),
                                   "exponent_under_estimates": sunder}
@@ -556,11 +566,11 @@ def oracle(env):
         if e > 0 and b ** e > n:
             bover += 1
         case = (f"CToBaseE {e}%nat {V.cZ(n)} {V.cZ(b)} {czl(ds)}", {"fn": "to_base(elem)", "n": n, "b": b})
-        if e > 64:
+        if e > 16:
             heavy.append(case)  # the model recomputes b^i at every position like the code: cubic in e inside Coq
         elif idx % stride == 0:
             extra.append(case)
-    extra += rng.sample(heavy, min(len(heavy), env.budget(100, 400)))
+    extra += rng.sample(heavy, min(len(heavy), env.budget(150, 600)))
     env.count(len(items), (f"base:{b}:{n}" for n, b in items))
     notes["bases"] = {"bases": "2..300", "cases": len(items), "max_n": max(n for n, _ in items),
                       "exponent_under_estimates(b^(e+1)<=n)": bunder, "exponent_over_estimates": bover}
